@@ -4,7 +4,7 @@ NEXT Next
 INVARIANT InvQuotedRef
 INVARIANT InvDescRef
 INVARIANT InvBlockRef
-INVARIANT InvReasonDev
+INVARIANT InvReasonToday
 INVARIANT InvDescDev
 INVARIANT InvSpecifiedByDev
 INVARIANT InvDefaultToday
